@@ -401,17 +401,19 @@ prop('C07',
 prop('C27',
      builds=[dict(crate='vm', filters=['c27_', 'c30_tr_internal_unlisted'])],
      default=dict(mem=8, timeout={'quick': 900, 'thorough': 2400}, cbmc_extra=FS, unwindset=['memcmp.0:70']),
-     min_harnesses={'quick': 7, 'thorough': 7},
-     functions_encoded=['<Script as ExecutableTransaction>::{update_outputs, replace_variable_output}', 'interpreter::contract::{balance, balance_increase, balance_decrease}', '<op::TR as Execute>::execute, Interpreter::transfer, TransferCtx::transfer (contract context)',
+     min_harnesses={'quick': 9, 'thorough': 9},
+     functions_encoded=['<op::MINT as Execute>::execute, MintCtx::mint', '<op::BURN as Execute>::execute, BurnCtx::burn', '<ContractId as ContractIdExt>::asset_id', '<Script as ExecutableTransaction>::{update_outputs, replace_variable_output}', 'interpreter::contract::{balance, balance_increase, balance_decrease}', '<op::TR as Execute>::execute, Interpreter::transfer, TransferCtx::transfer (contract context)',
                         'internal::{internal_contract, current_contract}', 'Normal::check_contract_in_inputs', 'ReceiptsCtx::push', 'gas::gas_charge',
                         '<MemoryStorage as ContractsAssetsStorage>::{contract_asset_id_balance, _insert, _replace}'],
      bounds=['real MemoryStorage with optional balances for (source, asset) and (destination, asset) plus two bystander entries; contract and asset ids concrete and pairwise distinct, one instance with source == destination',
              'amount, balances, presence of each entry, membership of the destination in the input set, $cgas/$ggas and every non-pointer register, and the whole gas schedule: symbolic (all u64 values)',
-             'TR executed in a contract (Call) context with the call frame id at $fp; operand pointers concrete'],
-     assumptions=[VM_STUBS_NOTE, 'binary Merkle leaf_sum/node_sum (receipts root) replaced by a stand-in: the receipts root value is not part of this property', 'register part of VMINV'],
+             'TR executed in a contract (Call) context with the call frame id at $fp; operand pointers concrete',
+             'MINT / BURN: contract or script context (symbolic), symbolic 32-byte sub id, symbolic amount, balance entry present or absent'],
+     assumptions=[VM_STUBS_NOTE, 'binary Merkle leaf_sum/node_sum (receipts root) replaced by a stand-in: the receipts root value is not part of this property', 'register part of VMINV',
+                  'MINT / BURN: fuel_crypto::Hasher::{chain, finalize} replaced by a logging stand-in; the asset id is compared with the same digest of (contract id, sub id) computed by the specification'],
      out_of_claim=['every path through RuntimeBalances (hashbrown map, K5): transfers from a script context, external CALL coin forwarding, the in-memory balance table',
-                   'TRO / MINT / BURN / SMO handlers and CALL coin forwarding (not built; the variable-output slot rule used by TRO and the post-execution change/refund/revert rule are decided on the transaction methods)', 'the global ledger equation over whole programs (sum of the local equations: argument)'],
-     level_text='One-step bounded model checking of the contract-balance kernel and of the TR instruction in a contract context against the local conservation equation: the source loses exactly what the destination gains, deficits and overflows panic instead of wrapping, the receipt carries the moved amount, bystander balances never change.',
+                   'TRO / SMO handlers and CALL coin forwarding (not built; the variable-output slot rule used by TRO and the post-execution change/refund/revert rule are decided on the transaction methods)', 'the global ledger equation over whole programs (sum of the local equations: argument)'],
+     level_text='One-step bounded model checking of the contract-balance kernel and of the TR, MINT and BURN instructions in a contract context against the local conservation equation: the source loses exactly what the destination gains, minting / burning moves the balance of H(contract, sub id) by exactly the amount, deficits and overflows panic instead of wrapping, each receipt carries the moved amount, bystander balances never change; post-execution change / refund / revert rule and the fill-once rule of variable outputs.',
      level_note='Trusted: Kani/CBMC/cadical, split_registers model. Partial claim (contract-to-contract transfers).')
 
 prop('C30',
